@@ -306,3 +306,16 @@ def fixed_histories():
     out.append({"sent": "P", "defs": [A("666f6f626172"), A(""), ("p", "s", 1), ("p", 2, "s"), ("p", 3, 0), A("626172666f6f")],
                 "ops": [("A", 4), ("A", 0), ("A", 5)], "kind": "fixed-multi"})
     return out
+
+
+def misuse_histories():
+    """restores of undo states that are no longer live (their add has been undone): outside the
+    property, used only to compare the Cursor semantics of model and implementation (the position
+    is put beyond the end of the Vec; the next write zero-fills the gap)"""
+    A = lambda x: ("a", bytes.fromhex(x))
+    defs = [A("666f6f626172"), ("p", 0, "s"), A("626172666f6f"), ("p", 2, "s"), A("")]
+    return [
+        {"sent": "P", "defs": defs, "ops": [("A", 1), ("A", 3), ("U", 0), ("U", 1), ("A", 4)], "kind": "misuse"},
+        {"sent": "P", "defs": defs, "ops": [("A", 1), ("A", 3), ("A", 1), ("U", 0), ("U", 2), ("A", 3), ("A", 4)], "kind": "misuse"},
+        {"sent": "H", "defs": defs, "ops": [("A", 1), ("A", 4), ("U", 0), ("U", 1), ("U", 0), ("A", 2)], "kind": "misuse"},
+    ]
